@@ -155,6 +155,12 @@ func c18mutants(g c18cfg) []c18mut {
 				m.Pipelines[p][i].Pipeline = "ghost-pipeline"
 				ms = append(ms, c18mut{"stage-pipeline", m, fmt.Sprintf("%s[%d].pipeline", p, i)})
 			}
+			if !s.Unnamed {
+				// a named stage that refers to nothing at all (the task/pipeline line is missing)
+				m := g.clone()
+				m.Pipelines[p][i].Task, m.Pipelines[p][i].Pipeline = "", ""
+				ms = append(ms, c18mut{"stage-task", m, fmt.Sprintf("%s[%d] names neither a task nor a pipeline", p, i)})
+			}
 			m := g.clone()
 			m.Pipelines[p][i].Deps = append(m.Pipelines[p][i].Deps, "ghost-stage")
 			ms = append(ms, c18mut{"depends_on", m, fmt.Sprintf("%s[%d].depends_on+=ghost-stage", p, i)})
